@@ -93,8 +93,34 @@ func (c *collection) updateIndexedDoc(
 	if err != nil {
 		return err
 	}
+
+	// The given document may carry only the fields that change, the others keep the value
+	// they have: the new index entries are made from the stored values overlaid with the given ones.
+	indexedFields := c.Definition().CollectIndexedFields()
+	newDoc, err := c.get(ctx, primaryKey, indexedFields, false)
+	if err != nil {
+		return err
+	}
+	if newDoc == nil {
+		newDoc = doc
+	} else {
+		for _, field := range indexedFields {
+			val, err := doc.TryGetValue(field.Name)
+			if err != nil {
+				return err
+			}
+			if val == nil {
+				continue
+			}
+			err = newDoc.Set(field.Name, val.Value())
+			if err != nil {
+				return err
+			}
+		}
+	}
+
 	for _, index := range c.indexes {
-		err = index.Update(ctx, oldDoc, doc)
+		err = index.Update(ctx, oldDoc, newDoc)
 		if err != nil {
 			return err
 		}
